@@ -130,6 +130,33 @@ def r_C28cd(root):
             ob("C28", "C28.d", M, "ReferenceResolver.resolve_one_step", " ".join(ast.unparse(a).split())[:80], guarded)
             if not guarded:
                 out.append(Finding("C28", "C28.d", M, "ReferenceResolver.resolve_one_step", " ".join(ast.unparse(a).split())[:90], "the location of every textX error coming out of a scope provider is overwritten with the location of the reference: an error raised while the provider loads another model (syntax error in that file) is reported in the referencing file", witness="a scope provider that loads a broken file lazily inside __call__"))
+    # ---- C28.d by evaluation: the handler is interpreted for every subset of location fields the provider's error already has
+    from sa import pyeval as _pe
+    import itertools as _it
+    ro0 = find(t, "ReferenceResolver.resolve_one_step")
+    for h in [h for n in ast.walk(ro0) if isinstance(n, ast.Try) for h in n.handlers if h.name and h.type is not None and "TextXError" in ast.unparse(h.type)]:
+        if not any(isinstance(x, ast.Attribute) and isinstance(x.value, ast.Name) and x.value.id == h.name and x.attr in ("line", "col", "filename") and isinstance(x.ctx, ast.Store) for x in ast.walk(ast.Module(body=h.body, type_ignores=[]))): continue
+        bad = None; n_cases = 0
+        for r_ in range(4):
+            for preset in _it.combinations(("line", "col", "filename"), r_):
+                err = {".cls": "TextXSemanticError", ".message": "m", ".nchar": None}
+                for f_ in ("line", "col", "filename"): err["." + f_] = ("provider-" + f_) if f_ in preset else None
+                parser = {".pos_to_linecol": _pe.PyFn(lambda pos: (("ref-line", pos), ("ref-col", pos))), ".debug": False}
+                self_ = {".kind": "resolver", ".parser": parser, ".model": {"._tx_filename": "ref.file", "._tx_parser": parser}}
+                env = {h.name: err, "self": self_, "crossref": {".position": 42, ".position_end": 45, ".obj_name": "n"}, "obj": {".kind": "obj"}, "attr": {".name": "a"}, "metamodel": {".file_name": "g.tx"},
+                       "__exc__": _pe.Raised("TextXSemanticError"), "get_model": _pe.PyFn(lambda o: self_[".model"]), "get_parser": _pe.PyFn(lambda o: parser), "__functions__": {k_: v_ for k_, v_ in helper_functions(root, M, "ReferenceResolver.resolve_one_step").items() if k_.startswith("_") and not k_.startswith("__")}}
+                try: _pe.run_block(h.body, env); raised = False
+                except _pe.Raised: raised = True
+                except _pe.Unsupported as u_: raise AnalysisError("resolve_one_step: TextXError handler outside the evaluated subset: %s" % u_)
+                n_cases += 1
+                want = {"line": ("ref-line", 42), "col": ("ref-col", 42), "filename": "ref.file"} if not preset else {f_: (("provider-" + f_) if f_ in preset else None) for f_ in ("line", "col", "filename")}
+                got = {f_: (tuple(err["." + f_]) if isinstance(err["." + f_], list) else err["." + f_]) for f_ in ("line", "col", "filename")}
+                if (got != want or not raised) and bad is None: bad = (preset, got, want, raised)
+        inst += 1
+        ob("C28", "C28.d", M, "ReferenceResolver.resolve_one_step", "TextXError handler evaluated for the %d subsets of location fields a provider's error can carry" % n_cases, bad is None)
+        if bad:
+            preset, got, want, raised = bad
+            out.append(Finding("C28", "C28.d", M, "ReferenceResolver.resolve_one_step", "provider error with %s set" % (list(preset) or "no location field"), ("the error is not re-raised" if not raised else "an error a scope provider raised with %s ends up located at %s; documented %s (an error without any location is located at the reference, an error that carries a location - also a partial one, e.g. from a nested model loaded from a string - keeps it)" % ("the fields %s" % list(preset) if preset else "no location", got, want)), witness="scope provider that loads a nested model from a string whose processor fails"))
     return inst, out
 
 def r_C28e(root):
